@@ -15,11 +15,12 @@ func init() {
 		id: "C14",
 		explanation: "Static clauses of 'chunk concatenation is total, deterministic and independent of chunk boundaries': " +
 			"(reflect-zero) in the concat closure no possibly-nil reflect.Type / possibly-zero reflect.Value reaches a method that panics on it without a guard; " +
+			"— nor is stored as a map element (SetMapIndex with a zero Value silently deletes the key) or Set; (bounded-index) every non-constant slice index in the closure is below a bound that the indexed slice is shown (by how it was made or by a dominating length comparison) to reach: chunks of one stream are indexed by another chunk's length only after their shapes were compared; " +
 			"(unchecked-assert) every single-value type assertion in the closure is one of the frozen, individually justified ones; " +
 			"(map-order) results built while ranging over a map are made order-independent: tool-call groups are enumerated by ranging over the group map and the merged list is sorted with a STABLE sort before it is returned; map merges write by key; " +
 			"(inputs-immutable) ConcatMessages / concatToolCalls / concatMessageArray never write through their inputs and never install an input's pointer as a result accumulator; " +
 			"(nil-chunk) a nil message chunk is rejected before any field access.",
-		decided:    []string{"reflect-zero", "unchecked-assert", "map-order", "inputs-immutable", "nil-chunk"},
+		decided:    []string{"reflect-zero (receiver and argument sinks)", "bounded-index", "unchecked-assert", "map-order", "inputs-immutable", "nil-chunk"},
 		notDecided: []string{"the algebraic re-chunking law (concat(prefix)+rest == concat(all))", "user-registered concat functions", "content of the concatenated values"},
 		run:        runC14,
 	})
